@@ -224,58 +224,72 @@ func checkC08(c *Ctx) *core.Result {
 
 	// ---- V2: in check, every path to `return true` passes a fired lookup test,
 	// and no fingerprint writer runs after that test's lookup call.
-	paths, err := ssax.EnumeratePaths(chk, 400)
+	// (helpers of check are expanded in place: a cascade moved into helper functions is the same cascade)
+	anchored := map[*ssa.Function]bool{pass: true, lookup: true}
+	for f := range W {
+		if f == pass {
+			anchored[f] = true
+		}
+	}
+	inlineHelper := func(callee *ssa.Function, depth int) bool {
+		return p.InModule(callee) && !anchored[callee] && depth <= 3 && len(callee.Blocks) <= 60 && reachesFrom(p, callee, lookup)
+	}
+	paths, err := ssax.EnumerateTraces(chk, inlineHelper, 2000)
 	if err != nil {
 		r.Fail("V2", core.QualName(chk), "path enumeration", p.Pos(chk.Pos()), err.Error())
 	}
 	nTrue := 0
-	for pi, path := range paths {
-		last := path.Blocks[len(path.Blocks)-1]
-		ret, ok := last.Instrs[len(last.Instrs)-1].(*ssa.Return)
-		if !ok || len(ret.Results) != 1 {
-			continue
-		}
-		if b, isC := ssax.ConstBool(ret.Results[0]); isC && !b {
+	for pi := range paths {
+		path := &paths[pi]
+		if path.RetKnown && !path.Ret {
 			continue // false verdict: IsSQLi returns "" (V1)
 		}
 		nTrue++
-		expr := fmt.Sprintf("path #%d to return at %s", pi, p.Pos(ret.Pos()))
+		expr := fmt.Sprintf("path #%d to return at %s", pi, p.Pos(path.RetPos))
 		// find the last fired test on the path
 		firedAt := -1
 		var firedCall *ssa.Call
-		for i, b := range path.Blocks[:len(path.Blocks)-1] {
-			iff, ok := b.Instrs[len(b.Instrs)-1].(*ssa.If)
-			if !ok {
+		for i, it := range path.Items {
+			if !it.Branch {
 				continue
 			}
-			if call, succ, ok := isLookupTest(iff, lookup, kFP); ok && path.Edge(i) == succ {
+			if call, firedWhenTrue, ok := lookupTestOf(path, it.Cond, it.CondFr, lookup, kFP); ok && it.True == firedWhenTrue {
 				firedAt = i
 				firedCall = call
 			}
 		}
 		if firedAt < 0 {
-			r.Fail("V2", core.QualName(chk), "return reachable without a fired fingerprint test", p.Pos(ret.Pos()), fmt.Sprintf("%s: a non-false verdict is returned on a path that passes no `%s(…,%d,…) != 0` test on its fired edge", expr, lookup.Name(), kFP))
+			r.Fail("V2", core.QualName(chk), "return reachable without a fired fingerprint test", p.Pos(path.RetPos), fmt.Sprintf("%s: a non-false verdict is returned on a path that passes no `%s(…,%d,…) != 0` test on its fired edge", expr, lookup.Name(), kFP))
 			continue
 		}
-		// writers after the fired lookup call
+		// writers after the fired lookup call: every call item behind the lookup call itself
 		bad := ""
-		for i := firedAt; i < len(path.Blocks); i++ {
-			for _, ins := range path.Blocks[i].Instrs {
-				ci, ok := ins.(ssa.CallInstruction)
-				if !ok {
-					continue
-				}
-				if i == firedAt && ssax.InstrIndex(ins) <= ssax.InstrIndex(firedCall) {
-					continue
-				}
-				f := ci.Common().StaticCallee()
-				if f == nil || W[f] {
-					bad = ci.String()
-				}
+		seenLookup := false
+		lookupAt := -1
+		for j := firedAt; j >= 0; j-- {
+			if path.Items[j].Call == firedCall {
+				lookupAt = j
+				break
 			}
 		}
+		for j, it := range path.Items {
+			if j == lookupAt {
+				seenLookup = true
+				continue
+			}
+			if !seenLookup || it.Call == nil {
+				continue
+			}
+			f := it.Call.Common().StaticCallee()
+			if f == nil || W[f] {
+				bad = it.Call.String()
+			}
+		}
+		if !seenLookup {
+			bad = "the fired test's lookup call is not on the path (undecided)"
+		}
 		if bad != "" {
-			r.Fail("V2", core.QualName(chk), "fingerprint rewritten after the fired test", p.Pos(ret.Pos()), fmt.Sprintf("%s: %s runs after the test that fired, so the fingerprint handed back is not the one that was black-listed", expr, bad))
+			r.Fail("V2", core.QualName(chk), "fingerprint rewritten after the fired test", p.Pos(path.RetPos), fmt.Sprintf("%s: %s runs after the test that fired, so the fingerprint handed back is not the one that was black-listed", expr, bad))
 			continue
 		}
 		// the lookup probe is the fingerprint field, and a pass precedes it
@@ -290,7 +304,7 @@ func checkC08(c *Ctx) *core.Result {
 			// lookup in fingerprint mode ignores its word argument; accept but note
 			r.Note("%s: lookup probe argument is not a load of the fingerprint field (fingerprint mode ignores it)", expr)
 		}
-		r.OK("V2", core.QualName(chk), fmt.Sprintf("true-path via test in block %d", path.Blocks[firedAt].Index), p.Pos(ret.Pos()), "passes a fired fingerprint test; no fingerprint writer afterwards")
+		r.OK("V2", core.QualName(chk), fmt.Sprintf("true-path #%d via the test at %s", pi, p.Pos(path.Items[firedAt].Ins.Pos())), p.Pos(path.RetPos), "passes a fired fingerprint test; no fingerprint writer afterwards")
 	}
 	if nTrue == 0 {
 		r.Fail("vacuity", core.QualName(chk), "no path returns a non-false verdict", p.Pos(chk.Pos()), "V2 matched zero paths")
